@@ -39,6 +39,14 @@ def _get_schema_check():
     return _schema_check
 
 
+def _bag_check(codemod: str | None):
+    if not codemod:
+        return None
+    from . import deltas
+
+    return deltas.checker(codemod)
+
+
 def write_tree(root: Path, files: dict) -> None:
     """files: rel -> str | {"b64": ...} | {"symlink": target} | {"dir": True}.  Insertion order = creation order."""
     for rel, spec in files.items():
@@ -125,6 +133,8 @@ def _run_scenario(sc: dict) -> dict:
                 expect=step.get("expect"),
                 site_lines=step.get("site_lines"),
                 site_findings=step.get("site_findings"),
+                observe=bool(step.get("observe")),
+                bag_check=_bag_check(step.get("bag_codemod")),
                 outside_unchanged=(outside_after == outside_before) and not stray,
                 schema_check=_get_schema_check(),
             )
